@@ -1,4 +1,4 @@
-import BV.Model.MetaBlock
+import BV.Model.MetaBlockFull
 import BV.Drive.Util
 /-! Line protocol of engine `metablock` (see `/verif/harness/src/metablock.rs`):
 
@@ -10,6 +10,17 @@ import BV.Drive.Util
         answer: `wf=<0|1> lock=<0|1> replay=<0|1>`
     metablock read <streamhex> <words>
         the RFC reader `readStream` on a whole stream: `ok <hex of the decoded bytes>` | `fail`
+    metablock storefull <islast> <npostfix> <ndirect> <dist_alphabet_size> <large 0|1> <mode 0..3> <prev_byte> <prev_byte2>
+                        <ix0> <byte0> <mask> <start> <len> <ringhex> <cmds> <mb>
+        the real `BrotliStoreMetaBlock`; answer as for `store`
+        mb = <lit split>@<cmd split>@<dist split>@<lit cmap>@<dist cmap>@<lit histos>@<cmd histos>@<dist histos>
+        split = num_types/num_blocks/types/lengths (comma lists or `-`)     cmap = size/v,… (or `-`)     histos = size/h|h|…  with h = sym:count,… | -
+    metablock readg <streamhex> <words>
+        the GENERAL RFC reader `readStreamG` on a whole stream: `ok <hex>` | `fail`
+    metablock cmap <size> <num_clusters> <v,…>
+        `EncodeContextMap`: `ok <storage_ix> <hex> rd=<NTREES>:<the map the general reader reads back>` | `panic`   (maps in run-length syntax `v` | `vxN`)
+    metablock bsw <num_types> <types,…> <lengths,…>
+        `BuildAndStoreBlockSplitCode` then `StoreBlockSwitch` for blocks 1..: `ok <storage_ix> <hex> rd=<type:length;…>` | `panic`
     cmds  = ins:copyfield:extra:cmdprefix:distprefix;…  | -
     words = len:id:transform:hex,… | -        (recorded expansions of static-dictionary words)
 -/
@@ -38,6 +49,69 @@ def lookupWord (ws : List (Nat × Nat × Nat × Bytes)) : WordOracle := fun l i 
 
 /-- bits of a byte string, first bit first -/
 def bytesBits (bs : Bytes) : List Bool := bs.foldr (fun b acc => bitsOf 8 b ++ acc) []
+
+def listArg (s : String) : List Nat := if s = "-" then [] else (s.splitOn ",").map natArg
+
+def parseBSplit (s : String) : Option BSplit :=
+  match s.splitOn "/" with
+  | [nt, nb, ts, ls] => some ⟨natArg nt, natArg nb, listArg ts, listArg ls⟩
+  | _ => none
+
+def parseCmap (s : String) : Option (Nat × List Nat) :=
+  match s.splitOn "/" with
+  | [sz, vs] => some (natArg sz, listArg vs)
+  | _ => none
+
+/-- sparse histogram `sym:count,…` over `n` symbols -/
+def parseHisto (n : Nat) (s : String) : List Nat :=
+  if s = "-" then List.replicate n 0 else
+  (s.splitOn ",").foldl (fun h t =>
+    match t.splitOn ":" with
+    | [a, b] => h.set (natArg a) (natArg b)
+    | _ => h) (List.replicate n 0)
+
+def parseHistos (n : Nat) (s : String) : Option (Nat × List (List Nat)) :=
+  match s.splitOn "/" with
+  | [sz, hs] => some (natArg sz, if hs = "" then [] else (hs.splitOn "|").map (parseHisto n))
+  | _ => none
+
+def parseMb (s : String) : Option MBSplit :=
+  match s.splitOn "@" with
+  | [a, b, c, d, e, f, g, h] =>
+    match parseBSplit a, parseBSplit b, parseBSplit c, parseCmap d, parseCmap e, parseHistos 256 f, parseHistos 704 g,
+      parseHistos 544 h with
+    | some l, some cm, some ds, some (ls, lm), some (dsz, dm), some (lhs, lh), some (chs, ch), some (dhs, dh) =>
+      some ⟨l, cm, ds, lm, ls, dm, dsz, lh, lhs, ch, chs, dh, dhs⟩
+    | _, _, _, _, _, _, _, _ => none
+  | _ => none
+
+def showNats (l : List Nat) : String := if l.isEmpty then "-" else ",".intercalate (l.map toString)
+
+/-- run-length list syntax `v` | `vxN`, comma separated -/
+def rleArg (s : String) : List Nat :=
+  if s = "-" then [] else
+  (s.splitOn ",").foldr (fun t acc =>
+    match t.splitOn "x" with
+    | [v, n] => List.replicate (natArg n) (natArg v) ++ acc
+    | _ => natArg t :: acc) []
+
+def showRle (l : List Nat) : String :=
+  let rec go : List Nat → Option (Nat × Nat) → List String → List String
+    | [], none, acc => acc.reverse
+    | [], some (v, n), acc => ((if n = 1 then toString v else s!"{v}x{n}") :: acc).reverse
+    | x :: xs, none, acc => go xs (some (x, 1)) acc
+    | x :: xs, some (v, n), acc =>
+      if x = v then go xs (some (v, n + 1)) acc
+      else go xs (some (x, 1)) ((if n = 1 then toString v else s!"{v}x{n}") :: acc)
+  if l.isEmpty then "-" else ",".intercalate (go l none [])
+
+/-- read `n` block switches with the general reader's `Cat.next` (each followed by consuming the whole block) -/
+def readSwitches : Nat → Cat → List Bool → List (Nat × Nat) → Option (List (Nat × Nat) × List Bool)
+  | 0, _, bs, acc => some (acc.reverse, bs)
+  | n + 1, c, bs, acc =>
+    match ({ c with count := 0 } : Cat).next bs with
+    | none => none
+    | some (c', bs') => readSwitches n c' bs' ((c'.btype, c'.count + 1) :: acc)
 
 def b01 (b : Bool) : String := if b then "1" else "0"
 
@@ -74,6 +148,51 @@ def handle (args : List String) : String :=
       let lock := lockstep wo np nd window m ⟨h, ring, 0⟩ 0 cmds
       let rp := replayCommands wo np nd window m ring h cmds == some (h ++ m)
       s!"wf={b01 wf} lock={b01 lock} replay={b01 rp}"
+  | ["storefull", il, np, nd, da, large, mode, prev, prev2, ix0, byte0, mask, start, len, ring, cmds, mb] =>
+    match parseCmds cmds, parseMb mb with
+    | some cmds, some mb =>
+      let w0 := bitsOf (natArg ix0) (natArg byte0)
+      match storeMetaBlockFull (hexToBytes ring) (natArg start) (natArg len) (natArg mask) (natArg prev) (natArg prev2)
+          (natArg il != 0) ⟨natArg np, natArg nd, natArg da, natArg large != 0⟩ (natArg mode) cmds mb w0 with
+      | .ok w => s!"ok {w.length} {bytesToHex (toBytes w)}"
+      | .panic => "panic"
+      | .fuel => "fuel"
+    | _, _ => "bad-op"
+  | ["readg", stream, words] =>
+    match readStreamG (lookupWord (parseWords words)) (bytesBits (hexToBytes stream)) with
+    | some out => s!"ok {bytesToHex out}"
+    | none => "fail"
+  | ["cmap", size, ncl, vs] =>
+    let m := rleArg vs
+    match encodeContextMap m (natArg size) (natArg ncl) [] with
+    | .ok w =>
+      let rd := match readContextMap (natArg size) w with
+        | some (nt, m', []) => s!"{nt}:{showRle m'}"
+        | some (_, _, _) => "leftover"
+        | none => "fail"
+      s!"ok {w.length} {bytesToHex (toBytes w)} rd={rd}"
+    | .panic => "panic"
+    | .fuel => "fuel"
+  | ["bsw", nt, ts, ls] =>
+    let types := listArg ts
+    let lengths := listArg ls
+    let split : BSplit := ⟨natArg nt, types.length, types, lengths⟩
+    let r := (buildAndStoreBlockSplitCode split BSCode.init []).bind fun (c, w) =>
+      ((types.zip lengths).drop 1).foldlM (fun (cw : BSCode × Writer) tl =>
+        storeBlockSwitch cw.1 tl.2 tl.1 false cw.2) (c, w)
+    match r with
+    | .ok (_, w) =>
+      let rd := match readCatHeader w with
+        | none => "fail"
+        | some (cat, bs) =>
+          if cat.nbl < 2 then s!"single:{cat.count}" else
+          match readSwitches (types.length - 1) cat bs [(0, cat.count)] with
+          | some (l, []) => ";".intercalate (l.map fun (p : Nat × Nat) => s!"{p.1}:{p.2}")
+          | some (_, _) => "leftover"
+          | none => "fail"
+      s!"ok {w.length} {bytesToHex (toBytes w)} rd={rd}"
+    | .panic => "panic"
+    | .fuel => "fuel"
   | ["read", stream, words] =>
     match readStream (lookupWord (parseWords words)) (bytesBits (hexToBytes stream)) with
     | some out => s!"ok {bytesToHex out}"
